@@ -6,8 +6,8 @@ export GOFLAGS=-mod=mod GOPROXY=off GOSUMDB=off GOTOOLCHAIN=local CGO_ENABLED=0
 mkdir -p harness/bin evidence replays .work lean/Bio/Generated
 cp /repo/go.sum harness/go.sum
 (cd harness && go build -o bin/tablegen ./cmd/tablegen && go build -o bin/translate ./cmd/translate && go build -o bin/corr ./cmd/corr)
-rm -f lean/Bio/Generated/Tables.lean lean/Bio/Generated/Flag.lean
-(cd harness && ./bin/tablegen ../lean/Bio/Generated/Tables.lean && ./bin/translate /repo/formats/sam/flag.go ../lean/Bio/Generated/Flag.lean)
+rm -f lean/Bio/Generated/Tables.lean lean/Bio/Generated/Flag.lean lean/Bio/Generated/Src.lean
+(cd harness && ./bin/tablegen ../lean/Bio/Generated/Tables.lean && ./bin/translate /repo/formats/sam/flag.go ../lean/Bio/Generated/Flag.lean && ./bin/translate -src /repo ../lean/Bio/Generated/Src.lean)
 (cd lean && lake build Bio biodriver)
 # the property modules (some may legitimately fail to build if /repo violates a property; checks report that)
 (cd lean && lake build Bio.Props.All) || true
